@@ -39,9 +39,9 @@ Init == hist = << >> /\ conn = << >> /\ queue = << >> /\ delivered = << >>
 
 (* the peer is sequential: it sends the next request when the previous one *)
 (* was answered, dropped, or is observed to make the server wait           *)
+CanSend == /\ Len(hist) < MaxReq
+           /\ \A i \in DOMAIN conn : conn[i].st # "sent"
 Send(c) ==
-  /\ Len(hist) < MaxReq
-  /\ \A i \in DOMAIN conn : conn[i].st # "sent"
   /\ (FinalValid /\ Len(hist) = MaxReq - 1) => c = ValidReq
   /\ hist' = Append(hist, c)
   /\ conn' = Append(conn, [st |-> "sent", obs |-> Blank])
@@ -75,7 +75,7 @@ Deliver ==
   /\ queue' = Tail(queue)
   /\ UNCHANGED <<hist, conn>>
 
-Next == \/ \E c \in Alphabet : Send(c)
+Next == \/ CanSend /\ \E c \in Alphabet : Send(c)
         \/ \E i \in DOMAIN conn : Handle(i) \/ PeerClose(i)
         \/ Deliver
 Spec == Init /\ [][Next]_vars
